@@ -171,8 +171,12 @@ func fieldByJSONName(t reflect.Type, name string, depth int) (reflect.StructFiel
 
 var foldMap = map[rune][]string{'k': {"K", "\u212a"}, 'K': {"k", "\u212a"}, 's': {"S", "\u017f"}, 'S': {"s", "\u017f"}, '\u212a': {"k", "K"}, '\u017f': {"s", "S"}}
 
-func perturbKey(rt *rapid.T, name string) string {
-	switch rapid.IntRange(0, 11).Draw(rt, "keypert") {
+func perturbKey(rt *rapid.T, name string, o DocOpts) string {
+	k := rapid.IntRange(0, 11).Draw(rt, "keypert")
+	if k == 2 && o.avoid("unifold") {
+		k = 0
+	}
+	switch k {
 	case 0:
 		return strings.ToUpper(name)
 	case 1:
@@ -254,7 +258,7 @@ func intLit(rt *rapid.T, bits int, signed bool) string {
 	case k == 7:
 		return rapid.SampledFrom([]string{"1.0", "1e2", "1.5", "1E0", "-1e1", "0.0", "1e-1", "10e-1", "1e19", "1e20"}).Draw(rt, "floatint")
 	case k == 8:
-		return rapid.SampledFrom([]string{"123456789012345678901234567890", "-123456789012345678901234567890", "99999999999999999999", "00", "01", "-01", "+1", "0x1", "1_0"}).Draw(rt, "bigint")
+		return rapid.SampledFrom([]string{"123456789012345678901234567890", "-123456789012345678901234567890", "99999999999999999999", "00", "01", "-01", "+1", "0x1", "1_0", "92233720368547758070", "92233720368547758080", "9223372036854775810", "-92233720368547758090", "-9223372036854775810", "18446744073709551620", "184467440737095516150", "184467440737095516160", "28446744073709551616"}).Draw(rt, "bigint")
 	default:
 		return strconv.FormatInt(rapid.Int64().Draw(rt, "anyint"), 10)
 	}
@@ -407,7 +411,7 @@ func genDocFor(rt *rapid.T, sb *strings.Builder, t reflect.Type, o DocOpts, dept
 					ft = f.Type
 					if strings.Contains(f.Tag.Get("json"), ",string") {
 						// quoted form for ,string fields (and sometimes not)
-						key = perturbKey(rt, name)
+						key = perturbKey(rt, name, o)
 						sb.WriteString(quoteKey(rt, key))
 						sb.WriteString(ws(rt) + ":" + ws(rt))
 						var inner strings.Builder
@@ -425,7 +429,7 @@ func genDocFor(rt *rapid.T, sb *strings.Builder, t reflect.Type, o DocOpts, dept
 						continue
 					}
 				}
-				key = perturbKey(rt, name)
+				key = perturbKey(rt, name, o)
 			}
 			sb.WriteString(quoteKey(rt, key))
 			sb.WriteString(ws(rt) + ":" + ws(rt))
